@@ -105,7 +105,7 @@ def evaluate(job):
         except SyntaxError:
             res["status"] = "syntax"
             return res
-        rc, out = run(["/venv/bin/python", "-m", "pytest", "-q", "-p", "no:cacheprovider", "--no-cov", "-rA", "-x"], tree,
+        rc, out = run(["/venv/bin/python", "-m", "pytest", "-q", "-p", "no:cacheprovider", "--no-cov", "-rA"], tree,
                       timeout=300)
         passed = set(re.findall(r"^PASSED (\S+)", out, re.M))
         if rc == 124 or not base <= passed:
